@@ -101,6 +101,27 @@ def h_cross(B, cls="CPCCA", n=4, p=2, q=2, k=2, alpha=1.0, cplx=False, metrics=T
                 B.eq(f"correlation_coefficients_{nm}[1,2] * std_1 * std_2 * (n-1) == S_1 . S_2", R[0, 1] * sd[0] * sd[1] * (n - 1), np.sum(S[:, 0] * S[:, 1]))
 
 
+def h_scores_cov(B, cls="HilbertCCA", n=6, p=2, q=2, k=2, use_pca=True):
+    """model-level consequences that need no oracle for the (Hilbert / PCA) pre-processing: for fields whitened with alpha = 0 the
+    scores have identity covariance (1/n normalisation of the whitener), and the paired scores carry the reported singular values"""
+    X = da2d(B, "x", n, p, feat="x")
+    Y = da2d(B, "y", n, q, feat="y")
+    kw = {"padding": "none"} if cls.startswith("Hilbert") else {}
+    model = M.cross(cls, n_modes=k, use_pca=use_pca, n_pca_modes="all", **kw)
+    model.fit(X, Y, "time")
+    B.covers(f"{cls}._fit_algorithm (use_pca={use_pca})")
+    d = model.data
+    S1 = d["scores1"].copy(deep=True).transpose("sample", "mode").data
+    S2 = d["scores2"].copy(deep=True).transpose("sample", "mode").data
+    sv = d["singular_values"].data
+    B.eq("scores1^H scores2 / (n-1) == diag(singular values)", _H(S1) @ S2 / (n - 1), np.diag(np.ones(k)) * sv, scale_of=[S1, S2])
+    B.eq("alpha=0 field X: scores1^H scores1 / n == I", _H(S1) @ S1 / n, np.eye(k))
+    B.eq("alpha=0 field Y: scores2^H scores2 / n == I", _H(S2) @ S2 / n, np.eye(k))
+    for i in range(k):
+        # canonical correlations are correlations: sigma_i * (n-1)/n <= 1
+        B.ge(f"canonical correlation {i + 1} does not exceed one", np.ones(1), sv[i : i + 1] * (n - 1) / n)
+
+
 def configs(tier):
     out = []
 
@@ -116,6 +137,7 @@ def configs(tier):
     add("h_cross", "CCA|p2q2|witness with feature scales 1 and 1e-5", cls="CCA", illcond=True, metrics=False)
     add("h_cross", "CPCCA|alpha=0.5|p2q2", cls="CPCCA", alpha=0.5)
     add("h_cross", "ComplexMCA|p2q2", cls="ComplexMCA", cplx=True)
+    add("h_scores_cov", "HilbertCCA|pca=1|n6 (decided at witnesses)", cls="HilbertCCA", use_pca=True)
     add("h_cross", "ComplexCCA|p2q2", cls="ComplexCCA", cplx=True, metrics=False)
     if tier == "thorough":
         add("h_cross", "RDA|p2q2", cls="RDA")
